@@ -16,6 +16,9 @@ def sh(cmd, **kw):
 
 
 def main():
+    # evidence and replays of runs against a MODIFIED /repo must not overwrite the committed ones
+    os.environ.setdefault('VERIF_EVIDENCE_DIR', '/tmp/cuv-scratch-evidence')
+    os.environ.setdefault('VERIF_REPLAY_DIR', '/tmp/cuv-scratch-replays')
     args = [a for a in sys.argv[1:] if not a.startswith('--')]
     run_all = '--all' in sys.argv
     tier = 'thorough' if '--thorough' in sys.argv else 'quick'
